@@ -27,7 +27,7 @@ let unhex s = if s = "-" then [] else
 let hex l = if l = [] then "-" else begin
   let b = Buffer.create 65536 in
   let d = "0123456789abcdef" in
-  L.iter (fun x -> let v = int_of_n x in Buffer.add_char b d.[(v lsr 4) land 15]; Buffer.add_char b d.[v land 15]) l;
+  L.iter (fun x -> let v = int_of_n x in Buffer.add_char b (Str.get d ((v lsr 4) land 15)); Buffer.add_char b (Str.get d (v land 15))) l;
   Buffer.contents b end
 
 let split_once c s =
@@ -46,8 +46,8 @@ let matrix_from n (bytes : coq_N list) : Types.qmat =
 (* an f64 literal with at most two decimals, as a count of hundredths; anything else is outside the model *)
 let hundredths_of_string (s : string) : coq_Z =
   let neg, body =
-    if Str.length s > 0 && s.[0] = '-' then (true, Str.sub s 1 (Str.length s - 1))
-    else if Str.length s > 0 && s.[0] = '+' then (false, Str.sub s 1 (Str.length s - 1))
+    if Str.length s > 0 && Str.get s 0 = '-' then (true, Str.sub s 1 (Str.length s - 1))
+    else if Str.length s > 0 && Str.get s 0 = '+' then (false, Str.sub s 1 (Str.length s - 1))
     else (false, s) in
   let ip, fp = match Str.index_opt body '.' with
     | Some i -> (Str.sub body 0 i, Str.sub body (i + 1) (Str.length body - i - 1))
@@ -56,7 +56,7 @@ let hundredths_of_string (s : string) : coq_Z =
   digits ip; digits fp;
   if ip = "" && fp = "" then raise Unsupported;
   (* drop trailing zeros of the fraction *)
-  let fp = let k = ref (Str.length fp) in while !k > 0 && fp.[!k - 1] = '0' do decr k done; Str.sub fp 0 !k in
+  let fp = let k = ref (Str.length fp) in while !k > 0 && Str.get fp (!k - 1) = '0' do decr k done; Str.sub fp 0 !k in
   if Str.length fp > 2 || Str.length ip > 15 then raise Unsupported;
   let fp = fp ^ Str.make (2 - Str.length fp) '0' in
   let v = (if ip = "" then 0 else int_of_string ip) * 100 + int_of_string fp in
@@ -114,9 +114,40 @@ let wasm_configure (o : Wasm.svg_options) (op : string) : Wasm.svg_options =
   | "version" -> Wasm.set_version o (nat_of_int (int_of_string v))
   | _ -> failwith "unknown wasm op"
 
+(* Deep recursions of the extracted spec functions (split_on, unescape over a whole document) can exceed the default
+   8 MB stack on the largest symbols: in that case the single case is re-run in a child process with the stack limit
+   raised (nothing is done when FQM_BIGSTACK is already set, so this cannot loop). *)
+let with_big_stack (a : string array) (f : unit -> string) : string =
+  try f () with Stack_overflow when Sys.getenv_opt "FQM_BIGSTACK" = None ->
+    let tmp = Filename.temp_file "fqm" ".case" in
+    let out = tmp ^ ".out" in
+    let oc = open_out tmp in
+    output_string oc (Str.concat " " (Array.to_list a)); output_char oc '\n'; close_out oc;
+    let cmd = Printf.sprintf "ulimit -s unlimited 2>/dev/null || ulimit -s $(ulimit -Hs) 2>/dev/null; FQM_BIGSTACK=1 %s run %s > %s"
+        (Filename.quote Sys.executable_name) (Filename.quote tmp) (Filename.quote out) in
+    let _ = Sys.command cmd in
+    let res = (try let ic = open_in out in let l = (try input_line ic with End_of_file -> "MODEL-STACK-OVERFLOW") in close_in ic; l
+               with Sys_error _ -> "MODEL-STACK-OVERFLOW") in
+    (try Sys.remove tmp with Sys_error _ -> ()); (try Sys.remove out with Sys_error _ -> ());
+    res
+
 let run_case (a : string array) : string =
   try
     match a.(0) with
+    (* spec oracles on the IMPLEMENTATION's string *)
+    | "oxml" ->
+      (* oxml <size> <hexmatrix> <hex of svg string> key=value ... *)
+      with_big_stack a (fun () ->
+        let n = int_of_string a.(1) in
+        let m = matrix_from n (unhex a.(2)) in
+        let text = unhex a.(3) in
+        let c = ref Svg.default in
+        for i = 4 to Array.length a - 1 do c := svg_configure !c a.(i) done;
+        match Xml.xml_parse text with
+        | None -> "0 PARSE-FAIL"
+        | Some d -> if d = SvgDoc.expected_doc !c (nat_of_int n) m then "1" else "0 DOC-MISMATCH")
+    | "oxmlparse" ->
+      with_big_stack a (fun () -> match Xml.xml_parse (unhex a.(1)) with Some _ -> "1" | None -> "0")
     | "svg" ->
       let n = int_of_string a.(1) in
       let m = matrix_from n (unhex a.(2)) in
